@@ -108,8 +108,12 @@ func (E *Engine) proveLemma(m *SpecModule, l *Lemma) *LemmaResult {
 		x := l.Induct
 		switch xs {
 		case "Int":
-			cases = append(cases, cse{"/base", decl("") + fmt.Sprintf("(assert (<= %s 0))\n", x) + goal})
-			cases = append(cases, cse{"/step", decl("") + fmt.Sprintf("(assert (> %s 0))\n", x) + ih(x, fmt.Sprintf("(- %s 1)", x), "", "") + goal})
+			lower := "0"
+			if l.Lower != nil {
+				lower = l.Lower.String()
+			}
+			cases = append(cases, cse{"/base", decl("") + fmt.Sprintf("(assert (<= %s %s))\n", x, lower) + goal})
+			cases = append(cases, cse{"/step", decl("") + fmt.Sprintf("(assert (> %s %s))\n", x, lower) + ih(x, fmt.Sprintf("(- %s 1)", x), "", "") + goal})
 		case "Node":
 			U := E.U
 			cases = append(cases, cse{"/case/nilN", decl("") + fmt.Sprintf("(assert (= %s nilN))\n", x) + goal})
